@@ -524,6 +524,73 @@ theorem to_changes_tag_only (t sp : Tag) (s : Sc) (n : Nat) :
   simp [ty1]
 
 
+theorem scLinear_diff' (s : Sc) (hs : scLinear s = true) : scAffineDiff s = some s := by
+  cases s <;> simp_all [scLinear, scAffineDiff]
+
+/-! ### Rejections between like operands are exactly the misuses
+
+For operands of the *same nominal kind and component type*, the only reason the algebra rejects is a
+tag clash, and the classifier names it: there is no "ill-sorted" escape for these programs. -/
+
+/-- vector ± vector (linear component type): rejected ⇒ classified `mix-space` or `mix-dim`. -/
+theorem vec_add_reject_class (o : Op2) (ho : o = .add ∨ o = .sub ∨ o = .mAdd ∨ o = .mSub)
+    (s : Sc) (hs : scLinear s = true) (n n' : Nat) (sp sp' : Tag)
+    (h : ty2 o (.vec s n sp) (.vec s n' sp') = none) :
+    mis2 o (.vec s n sp) (.vec s n' sp') = some .mixSpace ∨
+      mis2 o (.vec s n sp) (.vec s n' sp') = some .mixDim := by
+  have hne : ¬ (n = n' ∧ sp = sp') := by
+    rintro ⟨rfl, rfl⟩
+    have hd := scLinear_diff' s hs
+    rcases ho with rfl | rfl | rfl | rfl <;> simp [ty2, tyAdd, tySub, affineDiff, hd, hs] at h
+  by_cases hsp : sp = sp'
+  · subst hsp
+    have hn : n ≠ n' := fun e => hne ⟨e, rfl⟩
+    right
+    rcases ho with rfl | rfl | rfl | rfl <;>
+      simp [mis2, tagClash, tagClash0, Ty.space?, Ty.dim?, Ty.isPt, spaceClash, hn]
+  · rcases ho with rfl | rfl | rfl | rfl <;>
+      simp only [mis2, tagClash, tagClash0, Ty.space?, Ty.dim?, Ty.isPt, spaceClash, hsp] <;>
+      (cases sp <;> cases sp' <;> simp <;> grind)
+
+/-- `m.apply(&v)` with a 3-vector of some basis: rejected ⇒ classified `apply-outside-source`. -/
+theorem apply_reject_class (s d s' : Basis)
+    (h : ty2 .apply (.mat 4 (.r2r 3 s d)) (.vec .f32 3 (.real 3 s')) = none) :
+    mis2 .apply (.mat 4 (.r2r 3 s d)) (.vec .f32 3 (.real 3 s')) = some .applySource := by
+  have hne : s' ≠ s := by
+    rintro rfl; simp [ty2, applySig] at h
+  simp [mis2, misApply, Ty.space?, Ty.dim?, spaceClash, hne]
+
+/-- affine ∘ affine of the same size and dimension: rejected ⇒ classified `compose-mismatch`. -/
+theorem compose_reject_class (n k : Nat) (i' d s i : Basis)
+    (h : ty2 .compose (.mat n (.r2r k i' d)) (.mat n (.r2r k s i)) = none) :
+    mis2 .compose (.mat n (.r2r k i' d)) (.mat n (.r2r k s i)) = some .composeMismatch := by
+  have hne : i' ≠ i := by
+    rintro rfl; simp [ty2, tyCompose, composeMap] at h
+  simp [mis2, misCompose, Tag.source?, Tag.dest?, hne]
+
+/-- float-vector lerp with an `f32` parameter: rejected ⇒ classified `mix-space` or `mix-dim`. -/
+theorem lerp_reject_class (n n' : Nat) (sp sp' : Tag)
+    (h : ty3 .lerp (.vec .f32 n sp) (.vec .f32 n' sp') f32 = none) :
+    mis3 .lerp (.vec .f32 n sp) (.vec .f32 n' sp') f32 = some .mixSpace ∨
+      mis3 .lerp (.vec .f32 n sp) (.vec .f32 n' sp') f32 = some .mixDim := by
+  have hne : ¬ (n = n' ∧ sp = sp') := by
+    rintro ⟨rfl, rfl⟩
+    simp [ty3, lerpable, affineDiff, scAffineDiff, scLinear, linearScalar, f32] at h
+  by_cases hsp : sp = sp'
+  · subst hsp
+    have hn : n ≠ n' := fun e => hne ⟨e, rfl⟩
+    right
+    simp [mis3, tagClash, tagClash0, Ty.space?, Ty.dim?, spaceClash, hn]
+  · simp only [mis3, tagClash, tagClash0, Ty.space?, Ty.dim?, spaceClash, hsp]
+    cases sp <;> cases sp' <;> simp <;> grind
+
+-- the hypotheses are satisfiable: v1 + v2, m12.apply(&v2), m12.compose(&m12), v1.lerp(&w1, s) are rejected
+example : ty2 .add (.vec .f32 3 (.real 3 (.named 1))) (.vec .f32 3 (.real 3 (.named 2))) = none := by decide
+example : ty2 .apply (.mat 4 (.r2r 3 (.named 1) (.named 2))) (.vec .f32 3 (.real 3 (.named 2))) = none := by decide
+example : ty2 .compose (.mat 4 (.r2r 3 (.named 1) (.named 2))) (.mat 4 (.r2r 3 (.named 1) (.named 2))) = none := by
+  decide
+example : ty3 .lerp (.vec .f32 3 (.real 3 (.named 1))) (.vec .f32 2 (.real 2 (.named 1))) f32 = none := by decide
+
 /-! ## C. Twins: for each misuse class, the program with matching tags or an explicit conversion
 is accepted (statements over arbitrary contexts and arbitrary well-typed operand expressions) -/
 
